@@ -1,0 +1,14 @@
+//go:build verif
+
+// Contracts for /verif/govc (comment-only file; never part of a normal build).
+package cgen
+
+//@ default mode int
+
+// cName turns a Wuffs name or status message into a C identifier fragment. It is called
+// with an empty prefix for status messages, whose text is arbitrary: no panic for any
+// name and any prefix.
+//@ func cName
+//@   prop C11
+//@   pure
+//@   loop 1 invariant (isnil(base(s)) || fresh(base(s))) && len(s) >= len(pkgPrefix) && (len(s) >= 1 || underscore)
